@@ -4,6 +4,10 @@ import json, os
 HERE = os.path.dirname(os.path.dirname(os.path.abspath(__file__)))
 
 CLAIMED = {
+ 'C09': ('clang AST: writer section order extracted from the layout switch, accessor offsets normalised to polynomials and compared with the derived prefix sums; name/record-type agreement of count accessors; loop-condition and comparator rules for the attribute table',
+         'Decides for every typelib the structural necessary conditions: all 23 offset computations of the object/interface/struct/union/enum accessors equal base + preceding sections + n*element size as laid out by the compiler (interface padding and embedded field callbacks included, exhaustive over the accessors); field walkers step over embedded callbacks and plain products are used only where girparser.c cannot embed a callback; count accessors return the like-named member of the right blob; attribute lookup uses the sort key of the writer and rewinds with >=; g-ir-generate writes closure/destroy for every index >= 0.',
+         'Not decided (not applicable): results on concrete typelibs, type decoding, the rest of g-ir-generate. Trusted: clang-14, stub GLib headers.',
+         '§4 C09'),
  'C14': ('clang AST rules: control dependence of non-NULL returns on strcmp, clamp-before-index ordering, builder/search layout and count-field agreement, integer-width lint on size variables, unconditional cache invalidation',
          'Decides the structural necessary conditions for every typelib: each non-NULL result of the three directory lookups is control-dependent on strcmp(key, that entry\'s string) == 0 in both the indexed and the linear branch; the hash value is clamped with >= n_entries before indexing; builder and search agree on layout and both count Header.n_local_entries; no size/offset lives in fewer than 32 bits; registration always clears the negative GType cache; repository finders use these lookups.',
          'Not decided (not applicable): perfectness of the CMPH function (vendored library), behaviour on huge key sets, concrete typelibs. Trusted: clang-14, stub GLib headers.',
